@@ -53,7 +53,7 @@ func check(prop, tier string) int {
 	var err error
 	switch prop {
 	case "C08":
-		code, err = rt.RunSeq(prop, tier, gen.ExtraC08(tier), cli.Subset(prop, tier, staleMock))
+		code, err = rt.RunSeq(prop, tier, gen.ExtraC08(tier), cli.Subset(prop, tier, staleMock), cli.FlagPlumbing(prop))
 	case "C07":
 		code, err = rt.RunSeq(prop, tier, cli.Subset(prop, tier, func(s cli.Scenario) bool { return s.Prior == "ownstub" || s.Stub }), cli.FlagPlumbing(prop))
 	case "C03", "C04":
@@ -76,8 +76,10 @@ func check(prop, tier string) int {
 		code, err = cli.RunCLI(prop, tier, nil)
 	case "C19":
 		code, err = cli.RunCLI(prop, tier, gen.ExtraC19(tier))
-	case "C05", "C06":
+	case "C05":
 		code, err = rt.RunConc(prop, tier)
+	case "C06":
+		code, err = rt.RunConc(prop, tier, gen.ExtraC06(tier))
 	default:
 		fmt.Fprintln(os.Stderr, "no check for", prop)
 		return 2
